@@ -56,6 +56,10 @@ def handleE (line : String) : Except String String := do
   let P' : FProg := P.map fun fn => { fn with nodes := fn.nodes.map fun nd => { nd with reads := nd.reads ++ nd.extra } }
   let (TR, fixR) := solveR P' nregs fuel (Tables.empty P.length)
   if !fixB || !fixR then throw "summary iteration did not reach a fixpoint"
+  -- the same without "a return register the callee leaves untouched survives an internal call"
+  let Pn := compileWith p false
+  let Pn' : FProg := Pn.map fun fn => { fn with nodes := fn.nodes.map fun nd => { nd with reads := nd.reads ++ nd.extra } }
+  let (TRn, _) := solveR Pn' nregs fuel (Tables.empty P.length)
   let implSubs ← implJ.getArr?
   let mut tags : List String := []
   let mut diffs : List String := []
@@ -92,6 +96,7 @@ def handleE (line : String) : Except String String := do
         if interim && !sigOld.contains r then
           specs := specs ++ [("lost-read-at-exit", s!"{s.tid.id}:{showRegs U [r]}:{k}")]
         else
+          let k := if flaggedXB Pn TRn f r then k else "after-call"
           specs := specs ++ [(s!"missed-{k}", s!"{s.tid.id}:{showRegs U [r]}")]
       else
         specs := specs ++ [("lost-read-in-callee", s!"{s.tid.id}:{showRegs U [r]}")]
@@ -107,6 +112,7 @@ def handleE (line : String) : Except String String := do
     tags := tags ++ [if specB.isEmpty then "fn-noparams" else "fn-params",
                      if subset impl model then "fn-model=impl" else "fn-model<impl"]
     if specB.length != sigR.length then tags := tags ++ ["fn-B>R"]
+    if sigX.any (fun r => !flaggedXB Pn TRn f r) then tags := tags ++ ["fn-read-after-preserving-call"]
     if modelNew.length != modelOld.length then tags := tags ++ [if useNew then "fn-exit-reads-recorded" else "fn-exit-reads-lost"]
   match specs with
   | (cls, d) :: _ =>
